@@ -429,6 +429,15 @@ func mOpen(de, id []byte, mode int, c1, c3, c2 []byte) (msg, k []byte, err error
 	if err != nil {
 		return nil, nil, err
 	}
+	return mOpenW(w, id, mode, c1, c3, c2)
+}
+
+// mOpenW is mOpen from the point where w = e(C1, de) is known (callers that
+// memoise the pairing enter here).
+func mOpenW(w, id []byte, mode int, c1, c3, c2 []byte) (msg, k []byte, err error) {
+	if len(c2) == 0 {
+		return nil, nil, errors.New("empty C2")
+	}
 	var k1len int
 	switch mode {
 	case modeXOR:
